@@ -134,7 +134,8 @@ type (
 		creq    *clientReq
 		session *shareSession // session at registration time; stale if overwritten
 		in      []*partData
-		ackTs   []ackTopic // piggybacked ack topics from the initial request
+		ackTs   []ackTopic      // piggybacked ack topics from the initial request
+		ackErrs map[tpKey]int16 // ack errors from the initial request, reported when the fetch completes
 		cb      func()
 		t       *time.Timer
 
